@@ -125,8 +125,16 @@ def states(tier, seed):
     return base + [s for s in _states_deep(seed) if digest(s) not in seen]
 
 
+ZL_DENSE = sorted(set([10.0**-k for k in range(1, 9)] + [1 - 10.0**-k for k in range(1, 9)] + [i / 64.0 for i in range(1, 64)] + [0.123456789, 0.987654321, 1 / 3.0, 2 / 3.0]))
+ARGS_DENSE = [[float(nf), a, b] for nf in (3, 4, 5, 6) for a, b in ((1.0, 0.0), (2.5, 1.0), (-0.7, 2.0), (6.9, 0.0), (0.01, -1.0), (37.0, 3.0), (1e-4, 0.5), (250.0, -2.0))]
+
+
 def _states_deep(seed):
-    return []
+    """dense argument lattice for every kernel (91 z x 32 argument vectors; 17+91 points for scalar kernels) and caller cells on more schemes / Q2."""
+    out = [{"t": "kernel", "name": n, "dense": 1} for n in sorted(_dispatchers())]
+    for k, h, p, sc, q2 in itertools.product(SF_KINDS, ["light", "total", "charm", "bottom", "top"], ["NC", "CC", "EM"], ["ZM-VFNS", "FFNS3", "FFNS4", "FFNS5", "FFN03", "FFN04", "FFN05", "FONLL-FFNS4", "FONLL-FFN03"], [1.2, 3.0, 7.0, 30.0, 70.0, 700.0, 2.3e3, 2.3e4, 2.3e5, 1e6]):
+        out.append({"t": "caller", "kind": k, "heavyness": h, "process": p, "scheme": sc, "Q2": q2})
+    return out
 
 
 def execute(st):
@@ -157,12 +165,13 @@ def _kernel(st):
     sig = d.nopython_signatures[0]
     ats = [str(a) for a in sig.args]
     lat = []
+    dense = bool(st.get("dense"))
     if len(ats) == 2 and ats[0] == "float64" and "rray" in ats[1]:
-        for z in ZL:
-            for a in GENERIC_ARGS:
+        for z in (ZL_DENSE if dense else ZL):
+            for a in (ARGS_DENSE if dense else GENERIC_ARGS):
                 lat.append((z, np.array(a, dtype=float)))
     elif ats == ["float64"]:
-        for x in XSPECIAL + ZL:
+        for x in XSPECIAL + (ZL_DENSE + [-x for x in ZL_DENSE] + [1 + x for x in ZL_DENSE] if dense else ZL):
             lat.append((float(x),))
     elif ats == ["int64", "int64", "float64"]:
         for n, p in ((1, 1), (1, 2), (2, 1), (2, 2), (3, 1), (1, 3)):
